@@ -60,6 +60,7 @@ Fixpoint supp (k : nat) (s : stmt) {struct k} : bool :=
         | EElse b => forallb (supp k) b
         | EElif x => is_if x && supp k x
         end
+    | SFor i c p b => init_ok i && init_ok p && forallb (supp k) b
     | _ => false
     end
   end.
